@@ -164,40 +164,58 @@ func cmdRun(args []string) {
 		}
 	}
 	self, _ := os.Executable()
-	var wg sync.WaitGroup
-	sem := make(chan struct{}, *jobs)
+	// Scenarios run one after the other, each sharded over all workers, and each gets an equal
+	// share of what is left of the budget (a scenario that finishes early leaves its share to the
+	// later ones), so that one expensive scenario cannot starve the others.
+	byScen := map[string][]*unit{}
+	var order []string
 	for _, u := range units {
-		wg.Add(1)
-		sem <- struct{}{}
-		go func(u *unit) {
-			defer wg.Done()
-			defer func() { <-sem }()
-			cargs := []string{"unit", "-prop", *prop, "-tier", *tier, "-scenario", u.sc.Name,
-				"-shard", fmt.Sprint(u.shard), "-nshards", fmt.Sprint(u.nshards), "-out", u.out, "-deadline", fmt.Sprint(deadline.Unix())}
-			cmd := exec.Command(self, cargs...)
-			if *conform {
-				// conformance build: the binary is a test binary, the command line travels in the environment
-				cmd = exec.Command(self, "-test.run", "^TestConform$", "-test.timeout", "0")
-				cmd.Env = append(os.Environ(), "VH_ARGS="+strings.Join(cargs, "\x1f"), "GODEBUG=asynctimerchan=0")
-			}
-			outb, err := cmd.CombinedOutput()
-			if err != nil {
-				u.err = fmt.Sprintf("shard %d of %s failed: %v\n%s", u.shard, u.sc.Name, err, clip(string(outb), 4000))
-				return
-			}
-			b, err := os.ReadFile(u.out)
-			if err != nil {
-				u.err = err.Error()
-				return
-			}
-			u.st = &Stats{}
-			if err := json.Unmarshal(b, u.st); err != nil {
-				u.err = err.Error()
-			}
-			os.Remove(u.out)
-		}(u)
+		if _, ok := byScen[u.sc.Name]; !ok {
+			order = append(order, u.sc.Name)
+		}
+		byScen[u.sc.Name] = append(byScen[u.sc.Name], u)
 	}
-	wg.Wait()
+	for si, name := range order {
+		remaining := time.Until(deadline)
+		if remaining < 0 {
+			remaining = 0
+		}
+		scDeadline := time.Now().Add(remaining / time.Duration(len(order)-si))
+		var wg sync.WaitGroup
+		sem := make(chan struct{}, *jobs)
+		for _, u := range byScen[name] {
+			wg.Add(1)
+			sem <- struct{}{}
+			go func(u *unit) {
+				defer wg.Done()
+				defer func() { <-sem }()
+				cargs := []string{"unit", "-prop", *prop, "-tier", *tier, "-scenario", u.sc.Name,
+					"-shard", fmt.Sprint(u.shard), "-nshards", fmt.Sprint(u.nshards), "-out", u.out, "-deadline", fmt.Sprint(scDeadline.Unix())}
+				cmd := exec.Command(self, cargs...)
+				if *conform {
+					// conformance build: the binary is a test binary, the command line travels in the environment
+					cmd = exec.Command(self, "-test.run", "^TestConform$", "-test.timeout", "0")
+					cmd.Env = append(os.Environ(), "VH_ARGS="+strings.Join(cargs, "\x1f"), "GODEBUG=asynctimerchan=0")
+				}
+				outb, err := cmd.CombinedOutput()
+				if err != nil {
+					u.err = fmt.Sprintf("shard %d of %s failed: %v\n%s", u.shard, u.sc.Name, err, clip(string(outb), 4000))
+					return
+				}
+				b, err := os.ReadFile(u.out)
+				if err != nil {
+					u.err = err.Error()
+					return
+				}
+				u.st = &Stats{}
+				if err := json.Unmarshal(b, u.st); err != nil {
+					u.err = err.Error()
+				}
+				os.Remove(u.out)
+			}(u)
+		}
+		wg.Wait()
+	}
 	part := &Part{Engine: "S", Property: *prop, Tier: *tier}
 	if *conform {
 		part.Engine = "C"
